@@ -43,6 +43,8 @@ func runC15(c *core.Ctx) {
 	} {
 		checkMultiset(c, "ABS5", s, ids)
 	}
+	c.Rule("ABS4", "ORDER BY containers identify a row by its keys and then all of its values")
+	checkOrderByLess(c)
 	checkTriggerRetraction(c, ids)
 	checkKeyReceived(c, ids)
 	checkJoinLayouts(c, ids)
